@@ -315,7 +315,7 @@ func genFindCase(r *Rng, ver string, kind string) (toks, bool) {
 func genC09(tier string, r *Rng, emit func(Case)) {
 	n := 6000
 	if tier == "thorough" {
-		n = 100000
+		n = 400000
 	}
 	for i := 0; i < n; i++ {
 		ver := allVers[i%3]
